@@ -317,7 +317,7 @@ def check_props(pid, extra_targets=(), timeout=1800):
         if b.startswith("Closed under"):
             res["assumptions"][n] = []
         else:
-            ax = re.findall(r"^([A-Za-z0-9_'.]+)\s*:", b, re.M)
+            ax = [a for a in re.findall(r"^([A-Za-z0-9_'.]+)\s*:", b, re.M) if a != "Axioms"]
             res["assumptions"][n] = ax
     bad_ax = []
     for n in names:
